@@ -289,6 +289,9 @@ pub struct Sim {
     /// oracle switches
     pub check_amp: bool,
     pub check_mtu: bool,
+    /// C20: record the plaintext frame sequence of every packet built (hook `verif_txlog`)
+    pub record_plain: bool,
+    pub plain: Vec<String>,
     pub mtu_rules: Option<[MtuRule; 2]>,
     /// datagrams delivered per node
     pub delivered: [u64; 2],
@@ -307,6 +310,12 @@ pub struct Sim {
     pub model_trace: bool,
     pub model_ops: Vec<String>,
     pub model_impl: Vec<String>,
+    /// hook: called right before (`false`) and right after (`true`) a connection handles a datagram event:
+    /// (sim, node, connection handle, datagram length, post?)
+    pub rx_tap: Option<Box<dyn FnMut(&mut Sim, usize, usize, usize, bool)>>,
+    /// frame injections written into packets (`Connection::verif_take_injected`), collected after every
+    /// poll_transmit: (node, connection handle, space, packet number, bytes written)
+    pub inj_log: Vec<(usize, usize, u8, u64, usize)>,
 }
 
 pub fn addr(port: u16) -> SocketAddr {
@@ -393,6 +402,8 @@ impl Sim {
             clock,
             check_amp: true,
             check_mtu: true,
+            record_plain: false,
+            plain: Vec::new(),
             mtu_rules: None,
             delivered: [0; 2],
             dropped: 0,
@@ -406,6 +417,8 @@ impl Sim {
             model_trace: false,
             model_ops: Vec::new(),
             model_impl: Vec::new(),
+            rx_tap: None,
+            inj_log: Vec::new(),
         }
     }
 
@@ -427,6 +440,10 @@ impl Sim {
         let now = self.t();
         let server = self.nodes[SERVER].addr;
         let (ch, conn) = self.nodes[CLIENT].ep.connect(now, cfg, server, "localhost").expect("connect");
+        let mut conn = conn;
+        if self.record_plain {
+            conn.verif_txlog_enable();
+        }
         self.nodes[CLIENT].conns.insert(ch.0, new_nc(conn));
         ch.0
     }
@@ -627,6 +644,10 @@ impl Sim {
         let sc = self.nodes[node].server_config_for_accept.clone();
         match self.nodes[node].ep.accept(inc, now, &mut buf, sc) {
             Ok((ch, conn)) => {
+                let mut conn = conn;
+                if self.record_plain {
+                    conn.verif_txlog_enable();
+                }
                 self.nodes[node].conns.insert(ch.0, new_nc(conn));
                 self.nodes[node].accepted.push(ch.0);
             }
@@ -692,7 +713,15 @@ impl Sim {
             let before = if self.model_trace { Some(self.nodes[node].conns[&ch].conn.verif_snapshot()) } else { None };
             *self.nodes[node].recv_from.entry(from).or_default() += len as u64;
             let remote_before = self.nodes[node].conns[&ch].conn.remote_address();
+            if let Some(mut f) = self.rx_tap.take() {
+                f(self, node, ch, len, false);
+                self.rx_tap = Some(f);
+            }
             self.nodes[node].conns.get_mut(&ch).unwrap().conn.handle_event(ev);
+            if let Some(mut f) = self.rx_tap.take() {
+                f(self, node, ch, len, true);
+                self.rx_tap = Some(f);
+            }
             let remote_after = self.nodes[node].conns[&ch].conn.remote_address();
             if self.debug_timers {
                 let a = self.nodes[node].conns[&ch].conn.verif_snapshot();
@@ -919,6 +948,16 @@ impl Sim {
     /// Oracles on every transmit (sizes, amplification, silence after drain).
     fn on_transmit(&mut self, node: usize, ch: usize, before: &Snapshot, t: &quinn_proto::Transmit, _buf: &[u8]) {
         let nowoff = self.now;
+        if self.record_plain {
+            for l in self.nodes[node].conns.get_mut(&ch).unwrap().conn.verif_take_txlog() {
+                self.plain.push(format!("n{node} c{ch} {l}"));
+            }
+        }
+        if self.rx_tap.is_some() {
+            for (space, pn, n) in self.nodes[node].conns.get_mut(&ch).unwrap().conn.verif_take_injected() {
+                self.inj_log.push((node, ch, space, pn, n));
+            }
+        }
         self.trace.push(Rec::Tx { node, ch, at: nowoff, size: t.size, seg: t.segment_size, dst: t.destination });
         let seg = t.segment_size.unwrap_or(t.size.max(1));
         let n = t.size.div_ceil(seg);
